@@ -26,7 +26,13 @@ pub struct Case {
     pub ext: u8,
     /// corruption sweep depth: 0 = prefixes + 16 boundary values, 1 = all 256 values per position, 2 = all two-byte corruptions
     pub depth: u8,
+    /// length of the extension's byte string for ext 2 / 3 (absent: 48 resp. 32 bytes, the sizes real
+    /// authenticators produce).  Neither the setters nor the encoder restrict it.
+    #[serde(default)]
+    pub ext_len: Option<usize>,
 }
+/// byte-string lengths around the CBOR length-prefix boundaries and the sizes of typical scratch buffers
+pub const EXT_LENS: [usize; 16] = [0, 1, 23, 24, 255, 256, 990, 1008, 1009, 1023, 1024, 1025, 4096, 65535, 65536, 70000];
 
 fn flag_subsets() -> Vec<u8> {
     let bits = [0x01u8, 0x04, 0x08, 0x10];
@@ -80,17 +86,28 @@ pub fn cases(tier: Tier) -> Vec<Case> {
                             } else {
                                 0
                             };
-                            v.push(Case { rp, counter, flags, assign_flags, attested, ext, depth });
+                            v.push(Case { rp, counter, flags, assign_flags, attested, ext, depth, ext_len: None });
                         }
                     }
                 }
             }
         }
     }
+    // extension outputs of every length class, without and with attested data, alone and (make) next
+    // to hmac-secret: true
+    for ext in [2u8, 3, 4] {
+        for l in EXT_LENS {
+            for attested in [None, Some((1u8, 16usize))] {
+                for (counter, flags) in [(2u8, 0x01u8), (4, 0x1d)] {
+                    v.push(Case { rp: 1, counter, flags, assign_flags: true, attested, ext, depth: 0, ext_len: Some(l) });
+                }
+            }
+        }
+    }
     if tier == Tier::Thorough {
         // all two-byte corruptions of the two shortest encodings
-        v.push(Case { rp: 1, counter: 1, flags: 0x05, assign_flags: true, attested: None, ext: 0, depth: 2 });
-        v.push(Case { rp: 1, counter: 1, flags: 0x01, assign_flags: true, attested: None, ext: 3, depth: 2 });
+        v.push(Case { rp: 1, counter: 1, flags: 0x05, assign_flags: true, attested: None, ext: 0, depth: 2, ext_len: None });
+        v.push(Case { rp: 1, counter: 1, flags: 0x01, assign_flags: true, attested: None, ext: 3, depth: 2, ext_len: None });
     }
     v
 }
@@ -155,12 +172,17 @@ fn build(c: &Case) -> Result<Built, String> {
             ext = Some(Cbor::Map(vec![(Cbor::Text("hmac-secret".into()), Cbor::Bool(true))]));
         }
         2 => {
-            let b: Vec<u8> = (0..48u8).collect();
+            let b: Vec<u8> = (0..c.ext_len.unwrap_or(48)).map(|i| i as u8).collect();
             ad = ad.set_make_credential_extensions(Some(make_credential::SignedExtensionOutputs { hmac_secret: None, hmac_secret_mc: Some(b.clone().into()) })).map_err(|e| format!("{e:?}"))?;
             ext = Some(Cbor::Map(vec![(Cbor::Text("hmac-secret-mc".into()), Cbor::Bytes(b))]));
         }
+        4 => {
+            let b: Vec<u8> = (0..c.ext_len.unwrap_or(48)).map(|i| (i as u8) ^ 0x33).collect();
+            ad = ad.set_make_credential_extensions(Some(make_credential::SignedExtensionOutputs { hmac_secret: Some(true), hmac_secret_mc: Some(b.clone().into()) })).map_err(|e| format!("{e:?}"))?;
+            ext = Some(Cbor::Map(vec![(Cbor::Text("hmac-secret".into()), Cbor::Bool(true)), (Cbor::Text("hmac-secret-mc".into()), Cbor::Bytes(b))]));
+        }
         3 => {
-            let b: Vec<u8> = (100..132u8).collect();
+            let b: Vec<u8> = (0..c.ext_len.unwrap_or(32)).map(|i| 100u8.wrapping_add(i as u8)).collect();
             ad = ad.set_assertion_extensions(Some(get_assertion::SignedExtensionOutputs { hmac_secret: Some(b.clone().into()) })).map_err(|e| format!("{e:?}"))?;
             ext = Some(Cbor::Map(vec![(Cbor::Text("hmac-secret".into()), Cbor::Bytes(b))]));
         }
